@@ -1073,6 +1073,8 @@ func c03RunCasePlan(x *mc.Exec, dec *c03Dec, tmpls []c03Tmpl, items [][]byte, se
 		}
 		stat.outcome(r, e)
 	}
+	// the host columns of all rows, read back the way the API reads a query result (blocks through reused column objects)
+	c03BlockReadBack(dec, rows, caseName)
 	for _, e := range ref { // non-trivial: some row merged >= 2 contributions
 		if len(e.vals) >= 2 {
 			// mc.Explore runs the all-default execution of a work unit twice (SplitDepth 3): count those half
@@ -1208,6 +1210,35 @@ func TestVerifC03(t *testing.T) {
 	rep.MergeExplore("insert-body-key-scratch", st4)
 	stat4.nontrivial += stat4.nontrivialDup / 2
 	rep.AddCounts(0, 0, 0, stat4.nontrivial)
+	// host arguments of several rows read back as blocks (string hosts of equal and different lengths, int hosts, empty
+	// states in one column), see verif_c03_block_test.go
+	hostT := c03HostBlockTemplates()
+	hostItems := make([][]byte, len(hostT))
+	for i := range hostT {
+		it, err := c03BuildItem(&hostT[i])
+		if err != nil {
+			t.Fatalf("template %s: %v", hostT[i].name, err)
+		}
+		b := tlstatshouse.SourceBucket3Bytes{Metrics: []tlstatshouse.MultiItemBytes{it}}
+		hostItems[i] = b.WriteTL1Boxed(nil)
+	}
+	maxLH := 3 // both tiers: 30^4 sequences x host-choice draws would not fit the thorough budget
+	rep.Bounds["host_block_templates"] = len(hostT)
+	rep.Bounds["host_block_max_contributions"] = maxLH
+	stat5 := &c03Stats{rep: rep}
+	body5 := func(x *mc.Exec) mc.Verdict {
+		L := 1 + x.ChooseFree(maxLH, "number of contributions")
+		seq := make([][2]int, L)
+		for i := range seq {
+			c := x.ChooseFree(len(hostT)*len(c03Agents), "contribution")
+			seq[i] = [2]int{c % len(c03Agents), c / len(c03Agents)}
+		}
+		return c03RunCase(x, decs[x.Worker], hostT, hostItems, seq, 0.5, stat5)
+	}
+	st5 := mc.Explore(body5, mc.Options{Bound: -1, SplitDepth: 3, Shard: k, Shards: n})
+	rep.MergeExplore("insert-body-host-block", st5)
+	stat5.nontrivial += stat5.nontrivialDup / 2
+	rep.AddCounts(0, 0, 0, stat5.nontrivial)
 	// hashes chosen against the sketch's hash table (wrap-around chains across resizes), see verif_c03_adv_test.go
 	st3, stat3 := c03AdversarialPart(t, rep, decs)
 	body := func(x *mc.Exec) mc.Verdict {
@@ -1240,8 +1271,9 @@ func TestVerifC03(t *testing.T) {
 		}
 		return ns
 	}()})
+	c03PublishBlockFindings(stat)
 	if err := rep.Write(); err != nil {
 		t.Fatal(err)
 	}
-	t.Logf("C03: executions=%d+%d+%d+%d (main, large-unique, adversarial-unique, key-scratch) rows judged=%d+%d+%d+%d nontrivial=%d+%d+%d+%d violations=%d", st.Executions, st2.Executions, st3.Executions, st4.Executions, stat.rows, stat2.rows, stat3.rows, stat4.rows, stat.nontrivial, stat2.nontrivial, stat3.nontrivial, stat4.nontrivial, rep.NumViolations())
+	t.Logf("C03: executions=%d+%d+%d+%d+%d (main, large-unique, adversarial-unique, key-scratch, host-block) rows judged=%d+%d+%d+%d+%d nontrivial=%d+%d+%d+%d+%d host-block results decoded=%d violations=%d", st.Executions, st2.Executions, st3.Executions, st4.Executions, st5.Executions, stat.rows, stat2.rows, stat3.rows, stat4.rows, stat5.rows, stat.nontrivial, stat2.nontrivial, stat3.nontrivial, stat4.nontrivial, stat5.nontrivial, c03Block.results, rep.NumViolations())
 }
